@@ -4,10 +4,13 @@ import json, os
 HERE = os.path.dirname(os.path.dirname(os.path.abspath(__file__)))
 ALL = [f"C{n:02d}" for n in range(1, 21)]
 TECH = "bounded symbolic execution of the real Python functions on z3-backed proxy values (in-house engine symx): all feasible paths explored, each assertion discharged by z3 as path-condition ∧ ¬property; counterexamples replayed on plain floats"
+TECH_IEEE = TECH + "; additionally, labelled concrete-value instances (ieee-*, grid-*, upsample-*, concrete-*) enumerate a finite grid of inputs to run the code's float / tzinfo arithmetic in IEEE against an exact integer oracle - bounded enumeration, not a solver verdict (DESIGN.md 2.5)"
+IEEE_IDS = {"C02", "C07", "C08", "C09", "C13"}
 CLAIMS = {}
 
 
-def claim(pid, category, text, note, design_ref, technique=TECH):
+def claim(pid, category, text, note, design_ref, technique=None):
+    technique = technique or (TECH_IEEE if pid in IEEE_IDS else TECH)
     CLAIMS[pid] = dict(category=category, text=text, note=note, design_ref=design_ref, technique=technique)
 
 
